@@ -561,8 +561,18 @@ impl<M: Math, T: Transformation<M>> Hamiltonian<M> for TransformedHamiltonian<M,
         let transformation = self.transformation();
         if let Err(logp_error) = out_point.init_from_transformed_position(transformation, math) {
             if !logp_error.is_recoverable() {
+                #[cfg(nuts_rs_verif)]
+                crate::verif::emit("leap", || {
+                    crate::verif::json!({"ev": "leap", "start": start.index_in_trajectory(),
+                        "sign": sign, "res": "err", "factor": step_size_factor})
+                });
                 return LeapfrogResult::Err(logp_error);
             }
+            #[cfg(nuts_rs_verif)]
+            crate::verif::emit("leap", || {
+                crate::verif::json!({"ev": "leap", "start": start.index_in_trajectory(),
+                    "sign": sign, "res": "div", "why": "logp_err", "factor": step_size_factor})
+            });
             let div_info = DivergenceInfo {
                 logp_function_error: Some(Arc::new(Box::new(logp_error))),
                 start_location: Some(math.box_array(start.point().position())),
@@ -606,10 +616,30 @@ impl<M: Math, T: Transformation<M>> Hamiltonian<M> for TransformedHamiltonian<M,
                 energy_error: Some(energy_error),
             };
             collector.register_leapfrog(math, start, &out, Some(&divergence_info));
+            #[cfg(nuts_rs_verif)]
+            crate::verif::emit("leap", || {
+                crate::verif::json!({"ev": "leap", "start": start.index_in_trajectory(),
+                    "sign": sign, "res": "div", "why": "energy", "factor": step_size_factor,
+                    "eerr": crate::verif::bits(energy_error)})
+            });
             return LeapfrogResult::Divergence(divergence_info);
         }
 
         collector.register_leapfrog(math, start, &out, None);
+        #[cfg(nuts_rs_verif)]
+        crate::verif::emit("leap", || {
+            let pos = math.box_array(out.point().position());
+            let grad = math.box_array(out.point().gradient());
+            crate::verif::json!({"ev": "leap", "start": start.index_in_trajectory(),
+                "sign": sign, "res": "ok", "factor": step_size_factor,
+                "end": out.index_in_trajectory(),
+                "ph": crate::verif::hash_f64s(&pos), "gh": crate::verif::hash_f64s(&grad),
+                "finite": pos.iter().all(|x| x.is_finite()),
+                "logp": crate::verif::bits(out.point().logp()),
+                "energy": crate::verif::bits(out.point().energy()),
+                "eerr": crate::verif::bits(energy_error),
+                "tid": out.point().transform_id})
+        });
 
         LeapfrogResult::Ok(out)
     }
